@@ -30,7 +30,9 @@ CFG = {
         "iter64_spec / iter1024_spec (C08_Iter.v), that C08's loop-by-loop model of Bit64.IterAsT / RIterAsT and of the Bit1024 "
         "chain writes exactly this list - both directions, every element type, every threshold (c09_word_iter_forward is the "
         "older forward-only bridge to Bit64.v); the 16-word loop and the list loop over blocks are also modelled and proved "
-        "here (one shared iter_loop lemma). Concurrency: the property's functions are pure functions of receiver and "
+        "here (one shared iter_loop lemma). The four Reverse methods are modelled (block_reverse: same Start, "
+        "every word complemented on 64 bits, receiver untouched) with c09_reverse; the cases check freshness by re-reading "
+        "each side after the other was modified. Concurrency: the property's functions are pure functions of receiver and "
         "arguments; the 'conc' class runs them from 8 goroutines on goroutine-owned values and every divergent observation "
         "is an ordinary case (an interleaving-dependent defect such as shared scratch state is found by repetition, not by "
         "proof - the model has no notion of shared state). Errors are compared as error / no error (the "
@@ -51,7 +53,12 @@ CFG = {
         "block entry points on words of 9/10/11/33/64 members including bits 63 and 0, in word 0 / 7 / 15, counts below / at / "
         "above what reaches the word, under sparseMagic 9, 0 and 64; conc = marshal round trips and block / list calls made by "
         "8 goroutines at once on goroutine-owned values (every observation differing from the single-threaded one, plus the "
-        "last observation of every goroutine); distinct = distinct Coq case term (inputs and observations) plus threshold / goroutine"
+        "last observation of every goroutine); rev = BigU32.Reverse / U32BitTip.Reverse of a block with 0..1024 members: result Start and words, receiver re-read, "
+        "Equal(receiver, result) and Equal(receiver, rebuilt receiver), result.B1024.GetNAsI16(n), an integer offered to the "
+        "RESULT then the receiver re-read, an integer offered to the RECEIVER then the result re-read, further integers offered "
+        "to the result, its forward / reverse iteration (non-trivial: receiver neither empty nor full); revs = BigU32s.Reverse / "
+        "U32BitTips.Reverse of 0..4 blocks: result (Start, words) per element, then every result element modified and the "
+        "receivers re-read; distinct = distinct Coq case term (inputs and observations) plus threshold / goroutine"
     ),
     "trusted": [
         "per-word traversal Bit64.IterAs*/RIterAs* abstracted to 'first n set positions in the direction' (proved for the forward direction in C08's Bit64.v; observed here through every iteration result)",
